@@ -2,8 +2,11 @@
 
 Explicit-state BFS over the real FilenameDistributor (rqdist), to fixpoint for N names."""
 import common
+import sched
+import toyquilt as tq
+import wsweep
 
-NEEDS = ('rqdist',)
+NEEDS = ('rqdist', 'rq')
 
 
 def run(tier, seed):
@@ -24,6 +27,39 @@ def run(tier, seed):
     cov['bad_states'] = doc['counters'].get('bad_states', 0)
     res.assumptions = ['the harness includes /repo/src/rapidquilt/apply/mod.rs via #[path]; FilenameDistributor::verif_state() (cfg hook) exposes its two tables',
                        'the CLI-level consequence (no file loaded by two workers) is monitored by the C06 schedule explorer']
+    cli_part(tier, res)
     if doc['states'] < 50:
         res.machinery_errors.append('vacuous: only %d states' % doc['states'])
     return res
+
+
+def cli_case(task):
+    m0, series, threads = task
+    r = sched.explore(m0, series, {'backup': 'never', 'quiet': True}, threads, 0, max_schedules=40)
+    return {'schedules': r['schedules'], 'workers': r['workers'], 'machinery': r['machinery'],
+            'violations': [(mode, w) for mode, w in r['violations'] if mode == 'file-handled-by-two-workers'], 'tags': sorted(wsweep.tags_of(series))}
+
+
+def cli_part(tier, res):
+    """the consequence at CLI level: under the real driver no file is loaded or written by two workers. Series in which
+    names are related through renames, differing ---/+++ names, names deleted and re-used; serial schedules of N workers."""
+    m0 = tq.initial()
+    rel = ('rename', 'renameH', 'orig', 'viaold', 'createB', 'renameonto')
+    space = tq.enumerate_series(3, 1, allow_after_failure=1) if tier == 'quick' else tq.enumerate_series(3, 2, allow_after_failure=1)
+    series = [s for s in space if wsweep.tags_of(s) & set(rel) and len(s) >= 2]
+    if tier == 'quick':
+        series = series[::3]
+    tasks = [(m0, s, n) for s in series for n in ((2, 3) if tier == 'quick' else (2, 3, 4))]
+    runs = multi = 0
+    for t, r in zip(tasks, wsweep.pmap(cli_case, tasks)):
+        runs += r['schedules']
+        multi += 1 if r['workers'] >= 2 else 0
+        for m in r['machinery']:
+            res.machinery_errors.append(m)
+        for mode, w in r['violations']:
+            res.violation(wsweep.cls(set(r['tags']) | {'N=%d' % t[2]}), mode, w)
+    cov = res.coverage
+    cov['cli_consequence'] = {'series': len(series), 'explorations': len(tasks), 'runs': runs, 'explorations_with_two_or_more_workers': multi,
+                              'rule': 'series with >= 2 patches whose file patches relate names (git renames, .orig-style names, names removed and re-used), every serial order of the N workers '
+                                      '(N = 2,3%s) of the real hooked binary; the trace must show every file name loaded, removed or created by one worker only' % ('' if tier == 'quick' else ',4')}
+    cov['evaluations'] = cov.get('evaluations', 0) + runs
